@@ -17,6 +17,8 @@ void harness(void)
   __g_data = in_data;
   __g_n = in_n;
   for (int i = 0; i < 64; i++) __g_oldbuf[i] = s.buffer_._[i];
+  __g_mc_q1 = &s.buffer_._[__g_k];
+  __g_mc_q2 = &s.buffer_._[__g_j];
   span_u8 d = {in_data, in_n};
   crypto__Sha256__update(&s, d);
   CANARY_POINT();
